@@ -47,27 +47,22 @@ fn esc(out: &mut String, s: &str) {
     out.push('"');
 }
 
-fn crate_prefix<'tcx>(tcx: TyCtxt<'tcx>, did: DefId) -> String {
-    if did.is_local() {
-        format!("{}::", tcx.crate_name(LOCAL_CRATE))
-    } else {
-        String::new()
-    }
-}
-
+/// Canonical definition path (never a re-export): `crate::mod::Item`. Methods are named through
+/// their self type (`crate::mod::Type::method`, `<crate::Type as crate::Trait>::method`), closures
+/// as `<parent>::{closure#N}`, items nested in function bodies as `<fn>::Item`.
 fn raw_path<'tcx>(tcx: TyCtxt<'tcx>, did: DefId) -> String {
-    let p = with_no_trimmed_paths!(tcx.def_path_str(did));
-    format!("{}{}", crate_prefix(tcx, did), p)
+    nice_name(tcx, did)
 }
 
-/// A stable, readable name: `crate::mod::Type::method`, `<crate::Type as crate::Trait>::method`,
-/// closures as `<parent>::{closure#N}`.
 fn nice_name<'tcx>(tcx: TyCtxt<'tcx>, did: DefId) -> String {
+    if did.is_crate_root() {
+        return tcx.crate_name(did.krate).to_string();
+    }
     let kind = tcx.def_kind(did);
+    let parent = tcx.parent(did);
+    let key = tcx.def_key(did);
     match kind {
         DefKind::Closure | DefKind::InlineConst | DefKind::AnonConst | DefKind::SyntheticCoroutineBody => {
-            let parent = tcx.parent(did);
-            let key = tcx.def_key(did);
             let tag = match kind {
                 DefKind::Closure => "closure",
                 DefKind::InlineConst => "inline_const",
@@ -83,24 +78,28 @@ fn nice_name<'tcx>(tcx: TyCtxt<'tcx>, did: DefId) -> String {
         }
         _ => {}
     }
-    if matches!(kind, DefKind::AssocFn | DefKind::AssocConst { .. } | DefKind::AssocTy) {
-        let parent = tcx.parent(did);
-        if let DefKind::Impl { of_trait } = tcx.def_kind(parent) {
-            let self_ty = tcx.type_of(parent).instantiate_identity().skip_norm_wip();
-            let self_str = match self_ty.kind() {
-                ty::Adt(def, _) => raw_path(tcx, def.did()),
-                _ => with_no_trimmed_paths!(format!("{}", self_ty)),
-            };
-            let name = tcx.item_name(did);
-            if of_trait {
-                let tr = tcx.impl_trait_ref(parent).instantiate_identity().skip_norm_wip();
-                return format!("<{} as {}>::{}", self_str, raw_path(tcx, tr.def_id), name);
-            } else {
-                return format!("{}::{}", self_str, name);
-            }
+    if let DefKind::Impl { of_trait } = tcx.def_kind(parent) {
+        let self_ty = tcx.type_of(parent).instantiate_identity().skip_norm_wip();
+        let self_str = match self_ty.kind() {
+            ty::Adt(def, _) => nice_name(tcx, def.did()),
+            _ => with_no_trimmed_paths!(format!("{}", self_ty)),
+        };
+        let name = match tcx.opt_item_name(did) {
+            Some(n) => n.to_string(),
+            None => format!("{}", key.disambiguated_data.data),
+        };
+        if of_trait {
+            let tr = tcx.impl_trait_ref(parent).instantiate_identity().skip_norm_wip();
+            return format!("<{} as {}>::{}", self_str, nice_name(tcx, tr.def_id), name);
+        } else {
+            return format!("{}::{}", self_str, name);
         }
     }
-    raw_path(tcx, did)
+    let name = match tcx.opt_item_name(did) {
+        Some(n) => n.to_string(),
+        None => format!("{}#{}", key.disambiguated_data.data, key.disambiguated_data.disambiguator),
+    };
+    format!("{}::{}", nice_name(tcx, parent), name)
 }
 
 fn ty_str<'tcx>(ty: Ty<'tcx>) -> String {
@@ -703,7 +702,7 @@ fn dump_fn<'tcx>(tcx: TyCtxt<'tcx>, did: DefId, out: &mut String) {
         if i > 0 {
             out.push(',');
         }
-        esc(out, &ty_str(d.ty));
+        esc(out, &full_ty(tcx, d.ty, 0));
     }
     out.push_str("],\"vars\":[");
     let mut first = true;
